@@ -93,6 +93,12 @@ def hostile_cases(rnd):
         "big-count": ["DTSTART:19701025T030000", "RRULE:FREQ=YEARLY;COUNT=3", "TZOFFSETFROM:+0200", "TZOFFSETTO:+0100"],
         "weird-offset": ["DTSTART:19701025T030000", "TZOFFSETFROM:+0200", "TZOFFSETTO:-235959"],
         "text-offset": ["DTSTART:19701025T030000", "TZOFFSETFROM;VALUE=TEXT:+0200", "TZOFFSETTO:+0100"],
+        # onsets at the ends of the date range with offsets that push them over it (local time -> UTC overflows)
+        "first-day-east": ["DTSTART:00010101T000000", "TZOFFSETFROM:+2359", "TZOFFSETTO:+0100"],
+        "first-day-east-rule": ["DTSTART:00010101T000000", "RRULE:FREQ=YEARLY;COUNT=2", "TZOFFSETFROM:+1400", "TZOFFSETTO:+1300"],
+        "last-day-west": ["DTSTART:99991231T235959", "TZOFFSETFROM:-2359", "TZOFFSETTO:-1200"],
+        "last-day-west-rdate": ["DTSTART:99981231T235959", "RDATE:99991231T235959", "TZOFFSETFROM:-1200", "TZOFFSETTO:-1100"],
+        "first-day-to": ["DTSTART:00010101T000000", "TZOFFSETFROM:+0000", "TZOFFSETTO:+2359"],
     }
     for name, body in bodies.items():
         for sub in ("STANDARD", "DAYLIGHT"):
